@@ -39,6 +39,15 @@ type cliFixture struct {
 	name   string
 	dir    string
 	binary bool
+	pubDir string // optional: directory of the public keys (--keys_dir_public), see pubdir.go
+}
+
+// dirArgs are the arguments that tell the tool where the keystore is.
+func (f *cliFixture) dirArgs() []string {
+	if f.pubDir != "" {
+		return []string{"--keys_dir=" + f.dir, "--keys_dir_public=" + f.pubDir}
+	}
+	return []string{"--keys_dir=" + f.dir}
 }
 
 func (f *cliFixture) Name() string { return f.name }
@@ -101,7 +110,7 @@ func keyArg(kind, id string) (string, bool) {
 }
 
 func (f *cliFixture) Generate(kind, id string) error {
-	args := []string{"--keys_dir=" + f.dir, "--keystore=" + f.Format()}
+	args := append(f.dirArgs(), "--keystore="+f.Format())
 	switch kind {
 	case StoragePair:
 		args = append(args, "--client_id="+id, "--client_storage_key")
@@ -138,7 +147,7 @@ func (f *cliFixture) destroy(kind, id string, index int) error {
 	if !ok {
 		return ErrUnsupported
 	}
-	args := []string{"--keys_dir=" + f.dir, "--index", strconv.Itoa(index), arg}
+	args := append(f.dirArgs(), "--index", strconv.Itoa(index), arg)
 	if f.binary {
 		return f.run(append([]string{"destroy"}, args...)...)
 	}
@@ -161,7 +170,7 @@ func (f *cliFixture) DestroyRotated(kind, id string, index int) error {
 
 // list returns the rows of `acra-keys list --rotated-keys --json` (current keys first, then rotated ones).
 func (f *cliFixture) list() ([]keystore.KeyDescription, error) {
-	args := []string{"--keys_dir=" + f.dir, "--rotated-keys", "--json"}
+	args := append(f.dirArgs(), "--rotated-keys", "--json")
 	var out []byte
 	if f.binary {
 		o, err := f.output(append([]string{"list"}, args...)...)
